@@ -210,6 +210,19 @@ assert_eq!(
 #![allow(unexpected_cfgs)]
 #![allow(clippy::unusual_byte_groupings)]
 
+// Verification seam: a named scheduling point, compiled to nothing unless the crate is
+// built with `--cfg arimaa_engine_step_verif` (never set by cargo or by the test suite).
+#[cfg(arimaa_engine_step_verif)]
+macro_rules! verif_point {
+    ($name:expr) => {
+        verif_seam::point($name)
+    };
+}
+#[cfg(not(arimaa_engine_step_verif))]
+macro_rules! verif_point {
+    ($name:expr) => {};
+}
+
 #[macro_use]
 mod bit_manip;
 mod bit_mask;
